@@ -170,6 +170,8 @@ VOCAB = {
         # Generated/StyleFn.v
         ("Effects", "index_iter"): shape("g_eff_index_iter", "in", [], IITER),
         ("Effects", "render"): shape("g_eff_render", "in", [], EFFD),
+        ("Effects", "is_plain"): shape("g_eff_is_plain", "in", [], BOOL),
+        ("Style", "is_plain"): shape("g_st_is_plain", "in", [], BOOL),
         ("Style", "fg_color"): shape("rn_st_fg_color", "in", [("in", ("opt", COLOR))], STYLE),
         ("Style", "bg_color"): shape("rn_st_bg_color", "in", [("in", ("opt", COLOR))], STYLE),
         ("Color", "into"): m_identity,
